@@ -130,7 +130,9 @@ Definition piece_ok (p : piece) : bool :=
 Definition piece_solid (p : piece) : bool :=
   match p with Lit s => nonempty s | Self => true | Other _ => false end.
 Definition word_ok (w : word) : bool := forallb piece_ok w && existsb piece_solid w.
-Definition atom_ok (a : atom) : bool := truthy_atom a && benign_text (render_atom a).
+Definition atom_benign (a : atom) : bool := benign_text (render_atom a).
+(* Python's `if value:` is consulted only for a scalar / MultiInputObj element of an argstr WITHOUT placeholder *)
+Definition atom_ok (ws : list word) (a : atom) : bool := atom_benign a && (truthy_atom a || has_ph ws).
 Definition occ_text (ws : list word) (vals : vals_t) (self : la) : la :=
   join_sep [" "] (map (inst_word vals self) ws).
 Definition bracket_inert (s : la) : bool :=
@@ -150,10 +152,10 @@ Definition field_ok (f : sfield) (vals : vals_t) : bool :=
       match lookup vals (sf_name f), sf_ty f with
       | VNone, _ => true
       | VBool _, TBool => negb (has_ph ws) && negb dots
-      | VAtom a, (TStr | TInt | TFloat | TPath) => atom_ok a && inert ws vals (render_atom a)
-      | VList l, TMulti => forallb (fun a => atom_ok a && inert ws vals (render_atom a)) l
+      | VAtom a, (TStr | TInt | TFloat | TPath) => atom_ok ws a && inert ws vals (render_atom a)
+      | VList l, TMulti => forallb (fun a => atom_ok ws a && inert ws vals (render_atom a)) l
       | VList l, TList =>
-          forallb atom_ok l &&
+          forallb atom_benign l &&
           (if dots then la_eqb (sf_sep f) [" "] && forallb (fun a => inert ws vals (render_atom a)) l
            else if la_eqb (sf_sep f) [" "] then negb (has_ph ws)
            else forallb benign_char (sf_sep f)
